@@ -122,9 +122,20 @@ fn kind_word(o: &Oracle, kind: usize, rng: &mut Rng) -> u32 {
         4 => u32::MAX,
         5 => rng.below(64) as u32,                     // small integer (incl. prime-only words)
         6 => c & 0x1FFF_0000,                          // rank bit only
-        _ => c & 0x0000_FFFF,                          // no rank bit
+        7 => c & 0x0000_FFFF,                          // no rank bit
+        8 => {
+            // upper half (rank flag) of one card, lower half (suit, rank number, prime) of another
+            let d = o.cards[rng.below(52) as usize].w;
+            (c & 0xFFFF_0000) | (d & 0x0000_FFFF)
+        }
+        _ => {
+            // every field from a different card: rank flag, suit flag, rank number, prime
+            let (d, e, f) = (o.cards[rng.below(52) as usize].w, o.cards[rng.below(52) as usize].w, o.cards[rng.below(52) as usize].w);
+            (c & 0xFFFF_0000) | (d & 0xF000) | (e & 0x0F00) | (f & 0x00FF)
+        }
     }
 }
+const KINDS: usize = 10;
 
 fn check_validity(o: &Oracle, rep: &Report, w: &[u32]) {
     let n = w.len();
@@ -233,7 +244,7 @@ pub fn c04(o: &Oracle, thorough: bool, seed: u64, rep: &Report) {
     rep.space("all 2^32 words as one slot of a two-slot hand", true, 1u64 << 32);
 
     // whole hands: every equality pattern of the slots x every word kind per block
-    let kinds = 8usize;
+    let kinds = KINDS;
     let total = AtomicU64::new(0);
     for n in 2..=7usize {
         let parts = partitions(n);
@@ -282,9 +293,77 @@ pub fn c04(o: &Oracle, thorough: bool, seed: u64, rep: &Report) {
             total.fetch_add(1, Ordering::Relaxed);
         }
     }
+    // words assembled from the fields of different cards (each field valid on its own, the word not a card
+    // unless all fields come from the same card), in every slot of every size, next to distinct real cards
+    {
+        let mut mixes: Vec<u32> = vec![];
+        for a in &o.cards {
+            for b in &o.cards {
+                mixes.push((a.w & 0xFFFF_0000) | (b.w & 0x0000_FFFF));
+            }
+        }
+        for rf in 0..13usize {
+            for su in 0..4usize {
+                for rn in 0..13usize {
+                    for pr in 0..13usize {
+                        mixes.push((o.cards[rf].w & 0xFFFF_0000) | (o.cards[su * 13].w & 0xF000) | (o.cards[rn].w & 0x0F00) | (o.cards[pr].w & 0x00FF));
+                    }
+                }
+            }
+        }
+        mixes.sort_unstable();
+        mixes.dedup();
+        let nm = mixes.len();
+        par_chunks(nm, |mi| {
+            let x = mixes[mi];
+            for n in 2..=7usize {
+                for slot in 0..n {
+                    // partners: distinct cards that differ from x
+                    let mut w: Vec<u32> = vec![];
+                    let mut k = (mi * 7 + slot * 11 + n) % 52;
+                    while w.len() < n {
+                        let c = o.cards[k % 52].w;
+                        if c != x && !w.contains(&c) {
+                            w.push(c);
+                        }
+                        k += 5;
+                    }
+                    w[slot] = x;
+                    check_validity(o, rep, &w);
+                }
+            }
+        });
+        total.fetch_add((nm * 27) as u64, Ordering::Relaxed);
+        rep.space("every word assembled from the fields of up to four different cards (52 x 52 half mixes, 13 x 4 x 13 x 13 field mixes), in every slot of every size next to distinct cards", true, (nm * 27) as u64);
+    }
+    // every size has its own validity code: the word sweep again through one slot of a three- to seven-slot
+    // hand (quick: a seeded eighth of the 2^32 words per size; thorough: all)
+    {
+        let part: u32 = if thorough { 1 } else { 8 };
+        let off = (seed % part as u64) as u32;
+        for n in 3..=7usize {
+            let slot = ((seed as usize) + n) % n;
+            let partners: Vec<u32> = (0..n).map(|k| o.cards[(k * 9 + n) % 52].w).collect();
+            all_words(|w| {
+                if part > 1 && (w.wrapping_mul(0x9E37_79B1) >> 7) % part != off {
+                    return;
+                }
+                let mut ws = [0u32; 7];
+                ws[..n].copy_from_slice(&partners);
+                ws[slot] = w;
+                let e_valid = is_card(o, w) && partners.iter().enumerate().all(|(k, p)| k == slot || *p != w);
+                let h = Hand::from_words(&ws[..n]);
+                if guarded(|| h.is_valid()) != Ok(e_valid) {
+                    viol(rep, json!({"op":"valid","words":hilo_arr(&ws[..n])}), json!({"valid": e_valid}), "is_valid differs from: every slot a card word and no two slots equal");
+                }
+            });
+            rep.eval((1u64 << 32) / part as u64);
+        }
+        rep.space("the 2^32 words through one slot of a three-, four-, five-, six- and seven-slot hand (quick: a seeded eighth per size)", thorough, 5 * ((1u64 << 32) / part as u64));
+    }
     let t = total.load(Ordering::Relaxed);
     rep.distinct(t);
-    rep.space("hands of sizes 2..7: slot equality patterns x word kinds (card, blank, bit-flipped card, flagged card, 0xFFFFFFFF, small integer, rank-bit only, no rank bit), plus all-card patterns and random words", false, t);
+    rep.space("hands of sizes 2..7: slot equality patterns x word kinds (card, blank, bit-flipped card, flagged card, 0xFFFFFFFF, small integer, rank-bit only, no rank bit, halves of two cards, fields of four cards), plus all-card patterns and random words", false, t);
     rep.sample(json!({"words": hilo_arr(&[o.cards[0].w, o.cards[0].w | (1 << 29), 0, u32::MAX, 23]), "expected_valid": false}));
 }
 
@@ -400,6 +479,28 @@ pub fn c11(o: &Oracle, thorough: bool, seed: u64, rep: &Report) {
         }
         rep.space("history probe: validate -> mark through setters -> sort on one live container, sizes 2..7", false, sc);
     }
+    // every set of 2..6 real cards (seven: a seeded 1/16; thorough: all), in a seeded slot order
+    {
+        let mut sets = 0u64;
+        for n in 2..=7usize {
+            let perms = permutations(n);
+            let cnt = AtomicU64::new(0);
+            let stride: u64 = if n == 7 && !thorough { 16 } else { 1 };
+            par_subsets(n, |idx, ctr| {
+                let pick = mix(seed ^ 0x5e7 ^ n as u64, ctr);
+                if pick % stride != 0 {
+                    return;
+                }
+                let canon = o.words(idx);
+                let p = &perms[((pick >> 8) % perms.len() as u64) as usize];
+                let w: Vec<u32> = p.iter().map(|&k| canon[k]).collect();
+                check_sort(rep, &w);
+                cnt.fetch_add(1, Ordering::Relaxed);
+            });
+            sets += cnt.load(Ordering::Relaxed);
+        }
+        rep.space("every set of 2..6 real cards and (quick: 1/16 of) the seven-card sets, each in a seeded slot order", thorough, sets);
+    }
     let mut rng = Rng::new(seed ^ 0x50F7);
     let reps = if thorough { 2_000_000 } else { 100_000 };
     for n in 2..=7usize {
@@ -488,6 +589,68 @@ pub fn c19(o: &Oracle, thorough: bool, seed: u64, rep: &Report) {
         }
     }
     rep.space("seeded constructor/setter histories on Two..Seven with arbitrary words", false, histories);
+    // both constructors on every pattern of {blank, a word of its own per slot, 0xFFFFFFFF} over the slots
+    // (a constructor that trims, compacts, sorts or normalises its input shows on blanks in leading or
+    // interior slots and on words out of order)
+    {
+        let mut arrays = 0u64;
+        for n in 2..=7usize {
+            for style in 0..3 {
+                // own words: ascending cards, descending cards, arbitrary non-card words
+                let own: Vec<u32> = (0..n).map(|k| match style { 0 => o.cards[51 - 6 * k].w, 1 => o.cards[5 * k + 1].w, _ => 0x0101_0101u32.wrapping_mul(k as u32 + 3) }).collect();
+                for code in 0..3usize.pow(n as u32) {
+                    let mut cc = code;
+                    let w: Vec<u32> = (0..n).map(|k| { let d = cc % 3; cc /= 3; match d { 0 => 0, 1 => own[k], _ => u32::MAX } }).collect();
+                    for (ctor, h) in [("c_from", guarded(|| Hand::from_words(&w))), ("c_parts", guarded(|| Hand::from_parts(&w)))] {
+                        let ok = match &h { Ok(h) => h.to_arr() == w && h.accessors() == w && h.iter_vec() == w && h.first() == w[0], Err(_) => false };
+                        if !ok {
+                            viol(rep, json!({"op":ctor,"words":hilo_arr(&w)}), json!({"post": hilo_arr(&w), "acc": hilo_arr(&w), "iter": hilo_arr(&w)}), "constructed container does not hold the given words in the given slots");
+                        }
+                    }
+                    arrays += 1;
+                }
+            }
+        }
+        rep.eval(arrays * 8);
+        rep.space("both constructors of every size on every pattern of {blank, own word, 0xFFFFFFFF} per slot, three families of own words", true, arrays);
+    }
+    // writes of words the container already holds: every sequence of three setter calls over a two-word pool,
+    // from every initial array over the same pool (a setter that looks at the current contents shows here)
+    {
+        let pools: [[u32; 2]; 3] = [[o.cards[3].w, o.cards[40].w], [0, o.cards[11].w], [u32::MAX, 0x2000_0000 | o.cards[7].w]];
+        let mut seqs = 0u64;
+        for n in 2..=7usize {
+            for pool in pools {
+                for init_bits in 0..(1u32 << n) {
+                    let init: Vec<u32> = (0..n).map(|k| pool[((init_bits >> k) & 1) as usize]).collect();
+                    let calls = 2 * n;
+                    // all sequences of three calls from the first 16 initial arrays, all single and double calls from the rest
+                    let depth = if init_bits < 16 { 3 } else { 2 };
+                    for code in 0..calls.pow(depth) {
+                        let mut h = Hand::from_words(&init);
+                        let mut model = init.clone();
+                        let mut cc = code;
+                        for _ in 0..depth {
+                            let c = cc % calls;
+                            cc /= calls;
+                            let (slot, w) = (c / 2, pool[c % 2]);
+                            let pre = model.clone();
+                            h.set(slot, w);
+                            model[slot] = w;
+                            if h.to_arr() != model || h.accessors() != model || h.iter_vec() != model {
+                                viol(rep, json!({"op":"c_set","pre":hilo_arr(&pre),"slot":slot,"w":hilo(w)}), json!({"post": hilo_arr(&model), "acc": hilo_arr(&model), "iter": hilo_arr(&model)}),
+                                     "a slot setter changed something other than exactly the named slot (write of a word the container already holds)");
+                                break;
+                            }
+                        }
+                        seqs += 1;
+                    }
+                }
+            }
+        }
+        rep.eval(seqs * 3);
+        rep.space("every sequence of two (from 16 initial arrays: three) setter calls over a two-word pool, from every initial array over that pool, sizes 2..7, three pools", true, seqs);
+    }
     // five-slot selection: every in-range index tuple
     for (n, pool) in [(6usize, 0usize), (7, 0), (6, 1), (7, 1), (6, 2), (7, 2)] {
         // three word pools: random words; every near-miss kind (card, blank, bit-flipped, flagged, all ones,
@@ -581,6 +744,48 @@ pub fn c20(o: &Oracle, _thorough: bool, _seed: u64, rep: &Report) {
                 viol(rep, json!({"op":"flag","w":hilo(a.w),"marks":["quads"]}), json!({}), "quads / trips / pair marks do not order words by mark");
             }
         }
+    }
+    // the sorting priority the marks exist to give, on the containers themselves: distinct cards, some of
+    // them marked, sorted -- marked words first, quads before trips before pair, unmarked cards last
+    {
+        let mut rng = Rng::new(_seed ^ 0xC20);
+        let mut cases = 0u64;
+        for n in 2..=7usize {
+            for k in 0..4000usize {
+                let mut d: Vec<usize> = (0..52).collect();
+                rng.shuffle(&mut d);
+                let mut w: Vec<u32> = d.iter().take(n).map(|&i| o.cards[i].w).collect();
+                // mark pattern: base-4 digits of k (0 none, 1 pair, 2 trips, 3 quads), at least one mark
+                let mut kk = k + 1;
+                for x in w.iter_mut() {
+                    *x = match kk % 4 { 0 => *x, 1 => x.flag_as_pair(), 2 => x.flag_as_trips(), _ => x.flag_as_quads() };
+                    kk /= 4;
+                }
+                let h = Hand::from_words(&w);
+                let key = |x: u32| -> u32 { if x & bit("quads") != 0 { 3 } else if x & bit("trips") != 0 { 2 } else if x & bit("pair") != 0 { 1 } else { 0 } };
+                let got = guarded(|| {
+                    let c = h.sort().to_arr();
+                    let mut g = h;
+                    g.sort_in_place();
+                    (c, g.to_arr())
+                });
+                let mut e = w.clone();
+                e.sort_unstable_by(|a, b| b.cmp(a));
+                let by_mark = e.windows(2).all(|p| key(p[0]) >= key(p[1]));
+                match got {
+                    Ok((c, g)) => {
+                        if c != e || g != e || !by_mark {
+                            viol(rep, json!({"op":"sort","pre":hilo_arr(&w)}), json!({"copy": hilo_arr(&e), "inplace": hilo_arr(&e)}),
+                                 "sorting a hand with marked cards does not put quads before trips before pair before unmarked cards");
+                        }
+                    }
+                    Err(_) => viol(rep, json!({"op":"sort","pre":hilo_arr(&w)}), json!({"copy": hilo_arr(&e)}), "sort unwound"),
+                }
+                cases += 1;
+            }
+        }
+        rep.eval(cases * 2);
+        rep.space("hands of sizes 2..7 of distinct cards with every small pattern of marks, sorted by the container (copy and in place)", false, cases);
     }
     rep.eval(n * 60);
     rep.distinct(n);
